@@ -725,6 +725,9 @@ func fixedSize(t types.Type) int64 {
 	return -1
 }
 
+// r4Hook, when set, is called for every successful return of Read with the abstract states reaching it (used by C06).
+var r4Hook func(ret *ssa.Return, states []*r4state)
+
 func c04R4(r *Report, read *ssa.Function, L ssa.Value) {
 	p := r.P
 	rp := read.Params[0]
@@ -774,6 +777,9 @@ func c04R4(r *Report, read *ssa.Function, L ssa.Value) {
 				continue
 			}
 			nSuccess++
+			if r4Hook != nil {
+				r4Hook(t, outs)
+			}
 			key := fmt.Sprintf("Read/return(%s)", descVal(t.Results[0]))
 			if len(outs) == 0 {
 				r.Info("R4", key, t.Pos(), "unreachable under the tracked path facts")
